@@ -107,7 +107,7 @@ static void op_KeypairCreate(const jv *in, jout *out) {
     }
 }
 
-#define VH_MAX_KEYS 512
+#define VH_MAX_KEYS 4096
 static secp256k1_pubkey VH_PKS[VH_MAX_KEYS];
 static const secp256k1_pubkey *VH_PKP[VH_MAX_KEYS];
 /* loads "pks" (list of 33/65-byte encodings); returns the count, or -1 if one does not parse */
